@@ -1206,8 +1206,8 @@ class BufferedWriter(IndexWriter):
     def reader(self, **kwargs):
         from whoosh.reading import MultiReader
 
-        reader = self.writer.reader()
         with self.lock:
+            reader = self.writer.reader()
             ramreader = self._get_ram_reader()
 
         # If there are in-memory docs, combine the readers
@@ -1228,23 +1228,30 @@ class BufferedWriter(IndexWriter):
         self.commit(restart=False)
 
     def commit(self, restart=True):
-        if self.period:
-            self.timer.cancel()
-
+        # The whole swap of the underlying writer happens under the lock:
+        # other threads (callers sharing this object, the timer thread) must
+        # never see the writer between commit() and its replacement
         with self.lock:
+            if self.writer.is_closed:
+                # Already closed (a timer that fired while close() ran)
+                return
+
+            if self.period:
+                self.timer.cancel()
+
             ramreader = self._get_ram_reader()
             self._make_ram_index()
 
-        if self.bufferedcount:
-            self.writer.add_reader(ramreader)
-        self.writer.commit(**self.commitargs)
-        self.bufferedcount = 0
+            if self.bufferedcount:
+                self.writer.add_reader(ramreader)
+            self.writer.commit(**self.commitargs)
+            self.bufferedcount = 0
 
-        if restart:
-            self.writer = self.index.writer(**self.writerargs)
-            if self.period:
-                self.timer = threading.Timer(self.period, self.commit)
-                self.timer.start()
+            if restart:
+                self.writer = self.index.writer(**self.writerargs)
+                if self.period:
+                    self.timer = threading.Timer(self.period, self.commit)
+                    self.timer.start()
 
     def add_reader(self, reader):
         # Pass through to the underlying on-disk index
@@ -1264,6 +1271,12 @@ class BufferedWriter(IndexWriter):
     def update_document(self, **fields):
         with self.lock:
             IndexWriter.update_document(self, **fields)
+
+    def delete_by_query(self, q, searcher=None):
+        # Document numbers found by the search are only valid until the next
+        # flush, so find and delete under the lock
+        with self.lock:
+            return IndexWriter.delete_by_query(self, q, searcher=searcher)
 
     def delete_document(self, docnum, delete=True):
         with self.lock:
